@@ -27,8 +27,9 @@ BOUNDS = {"counter pre-state": "protocol 0..191, command 191..255 (the invariant
           "histories": "unbounded by induction over one step", "threads": "lock discipline only (see assumptions)"}
 ASSUMPTIONS = [
     "Python int == 32-bit bit-vector with discharged no-overflow obligations",
-    "threaded socket: the check proves every counter read/write happens with the socket lock held "
-    "(lock discipline => serialisability); bytecode-level preemption itself is not encoded",
+    "threaded socket: every counter read/write happens with the socket lock held (lock discipline), and a second "
+    "thread's complete call is run at every lock boundary of the first one's call (stepped two-thread interleaving at "
+    "lock granularity); bytecode-level preemption inside a critical section is not encoded",
     "the inductive invariant (protocol in 0..191, command in 191..255) is re-established by every step",
 ]
 SITES = ["ctr.*", "wire.*", "lock.*"]
@@ -319,6 +320,65 @@ SYNC_KINDS = ["set_value1", "set_value2", "press", "refresh", "version", "channe
               "statq", "wc_set", "wc_update", "rem_update"]
 
 
+class _HookLock:
+    """Lock double that lets "another thread" run a whole call at a chosen lock boundary: the instant
+    before the k-th acquisition (single-threaded stepping of a two-thread interleaving)."""
+
+    def __init__(self, hook_at, hook):
+        self.held = 0
+        self.n = 0
+        self.hook_at = hook_at
+        self.hook = hook
+        self.busy = False
+
+    def __enter__(self):
+        if not self.busy:
+            self.n += 1
+            if self.n == self.hook_at:
+                self.busy = True
+                try:
+                    self.hook()
+                finally:
+                    self.busy = False
+        assert self.held == 0
+        self.held += 1
+
+    def __exit__(self, *a):
+        self.held -= 1
+
+
+def interleaved_threads(sx):
+    """two threads on one threaded socket: the second runs a complete call at any lock boundary of the
+    first one's call; both must get distinct successive numbers of the cycle"""
+    from geckolib.driver import GeckoUdpSocket
+    s = GeckoUdpSocket()
+    p = sx.int_("protocol_counter", 0, 191)
+    c = sx.int_("command_counter", 191, 255)
+    s._sequence_counter_protocol, s._sequence_counter_command = p, c
+    k = bool(sx.choice("command", 2))
+    at = 1 + sx.choice("second_thread_runs_before_acquisition", 4)
+    got = []
+
+    def other():
+        got.append(s.get_and_increment_sequence_counter(k))
+    s._lock = _HookLock(at, other)
+    r = s.get_and_increment_sequence_counter(k)
+    sx.observe("results", (r, list(got)))
+    if got:
+        from sx.core import Ite
+        a, b = got[0], r          # the second thread completed first
+        lo, hi = (191, 255) if k else (0, 191)
+        prev = c if k else p
+        first = Ite(prev == hi, lo + 1, prev + 1)
+        sx.check(a != b, "lock.concurrent-callers-get-distinct-numbers", lambda: f"{a} and {b}")
+        exp_pair = (first, Ite(first == hi, lo + 1, first + 1))
+        ok = ((a == exp_pair[0]) & (b == exp_pair[1])) | ((b == exp_pair[0]) & (a == exp_pair[1]))
+        sx.check(ok, "lock.concurrent-callers-get-successive-numbers", lambda: f"{a},{b}")
+        sx.check((a >= lo + 1) & (a <= hi) & (b >= lo + 1) & (b <= hi), "lock.concurrent-results-in-range")
+    else:
+        sx.check(at > 1, "lock.call-acquires-the-lock")
+
+
 def independence(make):
     """API-only: counters are per connection - calls on one instance never move another's, and a
     fresh instance starts its cycles at 1 / 192 whatever happened elsewhere before."""
@@ -364,6 +424,7 @@ def units(tier):
     yield Unit("step.async-protocol", _counter_step(_mk_async_proto))
     yield Unit("step.threaded-socket", _counter_step(_mk_socket))
     yield Unit("lock.threaded-socket", lock_discipline)
+    yield Unit("lock.interleaved-threads", interleaved_threads)
     for k in ASYNC_KINDS:
         yield Unit(f"wire.async.{k}", wire_async(k))
     for k in SYNC_KINDS:
